@@ -10,6 +10,7 @@ CONSTANTS
   DotAll = TRUE
   FindFirst = FALSE
   Emit = "match"
+  BlockLen = 0
 SPECIFICATION ESpec
 INVARIANT EmitCase
 CHECK_DEADLOCK FALSE
